@@ -564,7 +564,7 @@ func (in *instance) key() string {
 
 func admitSig(class string) string {
 	switch class {
-	case clsOther:
+	case clsOther, clsFlood:
 		return "C15:admits-share-over-other-hash"
 	case clsReplay:
 		return "C15:admits-replayed-share"
